@@ -134,7 +134,7 @@ class ExprMixin:
         return z3.BoolVal(False)
 
     def class_as_val(self, name: str):
-        return z3.Const(f"clsobj!{name}", L.Val)
+        return L.clsobj(name)
 
     def py_eq(self, a: SV, b: SV, p: Path):
         """`a == b`."""
@@ -224,8 +224,10 @@ class ExprMixin:
         if name == "_DELETED_TAG":
             return SV("val", L.DELETED_TAG)
         if name in ("int", "str", "bool", "list", "tuple", "dict", "Node", "TypedNode", "Tree", "TypedTree", "SkipBranch", "StopTraversal", "SelectBranch", "StopIteration", "IterationControl",
-                    "ValueError", "KeyError", "AttributeError", "NotImplementedError", "UniqueConstraintError", "AmbiguousMatchError", "RuntimeError", "AssertionError", "TypeError", "IndexError", "Path", "IterMethod", "DictWrapper", "Randomizer"):
+                    "ValueError", "KeyError", "AttributeError", "NotImplementedError", "UniqueConstraintError", "AmbiguousMatchError", "RuntimeError", "AssertionError", "TypeError", "IndexError", "Path", "IterMethod", "DictWrapper", "Randomizer", "RuntimeWarning", "DeprecationWarning"):
             return SV("cls", name)
+        if name in ("warnings", "json", "zipfile", "io", "random"):
+            return SV("extmod", name)
         fq = self.resolve_global_function(name)
         if fq:
             return SV("func", ("repo", fq))
@@ -293,6 +295,12 @@ class ExprMixin:
                         return self.call_repo(qual, recv, [], {}, p, R, node)
                     return [(p, SV("bound", (recv, defcls, qual)))]
             raise Unsupported(f"super().{attr}")
+        if o.tag == "val" and attr == "value":
+            return [(p, SV("val", L.exc_value(o.z)))]
+        if o.tag == "val" and attr == "and_self":
+            return [(p, SV("val", L.exc_and_self(o.z)))]
+        if o.tag == "extmod":
+            return [(p, SV("extfn", (o.z, attr)))]
         if o.tag in ("lref", "dref", "cls", "str", "val", "func", "clsof"):
             return [(p, SV("method", (o, attr)))]
         raise Unsupported(f"attribute {attr} of {o.tag} (line {getattr(node, 'lineno', '?')})")
